@@ -107,9 +107,29 @@ _PROXY_NAMES = ("SymInt", "SymBytes", "SymStr", "SymBool", "SymReal", "SymText",
                 "ArrayShim", "SymChr", "AbstractPayload")
 
 
+def _never_swallowed():
+    return (core.Control, core.ConcreteFailure, core.ReplayMismatch) + tuple(core.NEVER_SWALLOW)
+
+
+def _patch_suppress():
+    """`with contextlib.suppress(BaseException):` is a bare `except: pass` in other clothes: it must not swallow the engine's
+    control exceptions either (same reason as AST rewrite (c))"""
+    import contextlib
+    if getattr(contextlib.suppress, "_sx_patched", False):
+        return
+    orig = contextlib.suppress.__exit__
+
+    def __exit__(self, exctype, excinst, exctb):
+        if exctype is not None and issubclass(exctype, _never_swallowed()):
+            return False
+        return orig(self, exctype, excinst, exctb)
+    contextlib.suppress.__exit__ = __exit__
+    contextlib.suppress._sx_patched = True
+
+
 def seen_shim():
     e = sys.exc_info()[1]
-    if isinstance(e, core.Control):
+    if isinstance(e, _never_swallowed()):
         raise e
     if isinstance(e, (TypeError, AttributeError)) and any(n in str(e) for n in _PROXY_NAMES):
         if core.CTX is not None:
@@ -263,6 +283,7 @@ def activate(root=None):
     """Load the repository symbolically (mode 'sym') or natively (mode 'concrete')."""
     global _active
     root = root or REPO
+    _patch_suppress()
     for k in list(sys.modules):
         if k == "websocket" or k.startswith("websocket."):
             del sys.modules[k]
